@@ -130,10 +130,18 @@ def make_case(r, mode, work, idx, tier):
         b.add_gene(seq, r.choice([1, -1]), r.randrange(1, 3), True, u5, u5 + 3 * len(prot) + 3, (), (), prot)
         ref = b.finish()
     elif mode == 'sect' and r.random() < 0.5:
-        # selenoprotein with two Sec codons (a length-changing variant between them moves the second one)
+        # selenoprotein with two nearby Sec codons and no cleavage site between them (an in-frame insertion / deletion
+        # between them moves the second one relative to the first)
         b = refgen.Builder(r)
-        seq, cs, ce, secs, prot = refgen.make_coding_tx_seq(r, r.randrange(16, 30), r.randrange(3, 10), r.randrange(6, 16), sec=2)
-        b.add_gene(seq, r.choice([1, -1]), r.randrange(1, 3), True, cs, ce, secs, (), prot)
+        nokr = 'ACDEFGHILMNPQSTVWY'
+        mid = ''.join(r.choice(nokr) for _ in range(r.randrange(2, 6)))
+        prot = 'M' + tryptic_protein(r, r.randrange(1, 3)) + ''.join(r.choice(nokr) for _ in range(r.randrange(1, 4))) + 'U' + mid + 'U' + \
+            ''.join(r.choice(nokr) for _ in range(r.randrange(1, 5))) + r.choice('KR') + tryptic_protein(r, r.randrange(1, 3))
+        cds = ''.join('TGA' if a == 'U' else r.choice(refgen.AA2CODONS[a]) for a in prot)
+        u5 = r.randrange(3, 10)
+        seq = refgen.rand_dna(r, u5) + cds + r.choice(['TAA', 'TAG']) + refgen.rand_dna(r, r.randrange(6, 16))
+        secs = [u5 + 3 * k for k, a in enumerate(prot) if a == 'U']
+        b.add_gene(seq, r.choice([1, -1]), r.randrange(1, 3), True, u5, u5 + len(cds) + 3, secs, (), prot)
         ref = b.finish()
     elif mode == 'as':
         # multi-exon transcript with introns long enough to donate inserted / substituted segments
@@ -173,12 +181,12 @@ def make_case(r, mode, work, idx, tier):
             cand = [cvgen.small_variant(r, ref, t, seq, sp - 1, 'SNV'),
                     cvgen.small_variant(r, ref, t, seq, r.randrange(max(t.cds_start + 3, sp - 18), sp - 2), r.choice(['SNV', 'SNV', 'INS', 'DEL']))
                     if sp - 2 > max(t.cds_start + 3, sp - 18) else None]
-            if len(t.sec) >= 2 and t.sec[1] - t.sec[0] > 8:
-                # an in-frame insertion / deletion between the two Sec codons
-                for _ in range(12):
-                    w = cvgen.small_variant(r, ref, t, seq, r.randrange(t.sec[0] + 3, t.sec[1] - 4), r.choice(['INS', 'DEL']))
-                    if w and abs(len(w['ref']) - len(w['alt'])) == 3 and w['end'] < t.sec[1]:
-                        cand.append(w); break
+            if len(t.sec) >= 2 and t.sec[1] - t.sec[0] >= 9:
+                # an in-frame insertion / deletion of one codon between the two Sec codons
+                for _ in range(20):
+                    w = cvgen.small_variant(r, ref, t, seq, r.randrange(t.sec[0] + 2, t.sec[1] - 3), r.choice(['INS', 'DEL']))
+                    if w and abs(len(w['ref']) - len(w['alt'])) == 3 and w['end'] <= t.sec[1] and w['start'] >= t.sec[0] + 2:
+                        cand = [w] + ([cand[1]] if len(cand) > 1 and r.random() < 0.5 else []); break
             cand = [v for v in cand if v]
             keep = []
             for v in cand:
